@@ -81,6 +81,24 @@ pub fn generate(rng: &mut Rng, tier: Tier, stats: &mut GenStats) -> Scenario {
         let at = g.rng.below(schedule.len());
         schedule.insert(at, Step::D(g.rng.below(2)));
     }
+    // Nothing a walk does may depend on process-global state at the time it is advanced: sometimes
+    // walks are constructed lazily (after another one was abandoned), and sometimes — all bases
+    // absolute — the working directory of the process changes between steps.
+    let lazy = nw >= 2 && g.rng.chance(4, 10);
+    if nw >= 2 && g.rng.chance(15, 100) {
+        for w in walkers.iter_mut() {
+            w.spelling = match g.rng.below(3) {
+                0 => Spelling::AbsoluteSlash,
+                1 => Spelling::AbsoluteSlashDot,
+                _ => Spelling::Absolute,
+            };
+        }
+        let dirs = Gen::plain_dirs(&model);
+        for _ in 0..g.rng.range(1, 3) {
+            let at = g.rng.below(schedule.len() + 1);
+            schedule.insert(at, Step::Cd(g.rng.pick(&dirs).clone()));
+        }
+    }
     Scenario {
         prop: "C02".into(),
         seed: 0,
@@ -90,6 +108,7 @@ pub fn generate(rng: &mut Rng, tier: Tier, stats: &mut GenStats) -> Scenario {
         mutations: vec![],
         schedule,
         triggers: vec![],
+        lazy,
     }
 }
 
@@ -187,6 +206,12 @@ pub fn check(sc: &Scenario, env: &mut Env) -> Result<Outcome, HarnessError> {
             out.nontrivial = true;
         }
         walker_probes(w, &mut out);
+        if sc.lazy {
+            out.probe("walkers:constructed-lazily");
+        }
+        if sc.schedule.iter().any(|s| matches!(s, Step::Cd(_))) {
+            out.probe("process:working-directory-changes-mid-run");
+        }
         if let Source::Glob { expr, rooted } = &w.source {
             if *rooted {
                 out.probe("glob:rooted");
